@@ -273,12 +273,27 @@ Restart(n) ==
 
 \* whatever is appended anywhere records the count it was appended with
 CCNext == cc' = [n \in Node |-> cc[n] \o SubSeq(cnt'[n], Len(cc[n]) + 1, Len(cnt'[n]))]
+\* ConfirmTransaction on a replica rewrites the commit record as well as the event records (write/confirm.rs chains the
+\* commit offset); the coordinator's own set_confirmations covers the event records only
+CCConfirm(m) ==
+    cc' = IF HasAt(m.to, m.tx, m.k) \/ (~CheckConfirm /\ Len(log[m.to]) >= m.k + Txs[m.tx])
+          THEN [cc EXCEPT ![m.to] = SetCount(@, m.k, Txs[m.tx], m.count)] ELSE cc
+ClientWriteC(t, c) == ClientWrite(t, c) /\ CCNext
+RecvReplicateC(m, keep) == RecvReplicate(m, keep) /\ CCNext
+RecvReplyC(m) == RecvReply(m) /\ CCNext
+RecvConfirmC(m, keep) == RecvConfirm(m, keep) /\ CCConfirm(m)
+GiveUpC(t) == GiveUp(t) /\ CCNext
+CatchUpC(r) == CatchUp(r) /\ CCNext
+LoseC(m) == Lose(m) /\ CCNext
+ViewChangeC(n, v) == ViewChange(n, v) /\ CCNext
+CrashC(n) == Crash(n) /\ CCNext
+RestartC(n) == Restart(n) /\ CCNext
 Next ==
-    \/ \E t \in TxId, c \in Node : ClientWrite(t, c) /\ CCNext
-    \/ \E m \in msgs : ((\E keep \in BOOLEAN : RecvReplicate(m, keep) \/ RecvConfirm(m, keep)) \/ RecvReply(m) \/ Lose(m)) /\ CCNext
-    \/ \E t \in TxId : GiveUp(t) /\ CCNext
-    \/ \E r \in Node : (CatchUp(r) \/ Crash(r) \/ Restart(r)) /\ CCNext
-    \/ \E n \in Node : \E v \in SUBSET Node : ViewChange(n, v) /\ CCNext
+    \/ \E t \in TxId, c \in Node : ClientWriteC(t, c)
+    \/ \E m \in msgs : (\E keep \in BOOLEAN : RecvReplicateC(m, keep) \/ RecvConfirmC(m, keep)) \/ RecvReplyC(m) \/ LoseC(m)
+    \/ \E t \in TxId : GiveUpC(t)
+    \/ \E r \in Node : CatchUpC(r) \/ CrashC(r) \/ RestartC(r)
+    \/ \E n \in Node : \E v \in SUBSET Node : ViewChangeC(n, v)
 Spec == Init /\ [][Next]_vars
 
 ----------------------------------------------------------------------------
